@@ -220,19 +220,43 @@ def check(run):
         o.check(any(str(x).endswith("GENESIS_BLOCK_HASH") for x in consts), "begin_block|genesis-fallback", "falls back to the parent block hash, and to GENESIS_BLOCK_HASH without a parent", b.span)
     et = [prog.bodies[d] for d in ops if d.endswith("::execute_transactions")]
     for b in et:
-        ha = [c for c in b.calls() if c.name == A + "crypto::hash::hash_all"]
+        fam = prog.family(b.defpath)      # the function and its closures (`for tx in ..` may be spelled `.for_each(|tx| ..)`)
+        caps = {}                          # closure def -> {capture name: captured term in the parent}
+        for fb in fam:
+            for (_bb, _i, _dst, rv, _sp) in fb.assignments():
+                t = fb.rvalue_term(rv)
+                if isinstance(t, tuple) and t and t[0] == "closure":
+                    caps[t[1]] = dict(t[2])
+
+        def is_state_hash(fb, t):
+            if K.mentions_field(t, "state_hash", "BlockExec"):
+                return True
+            for x in mir.walk(t):
+                if isinstance(x, tuple) and x and x[0] == "upvar" and K.mentions_field(caps.get(fb.defpath, {}).get(x[1], ("none",)), "state_hash", "BlockExec"):
+                    return True
+            return False
+        ha = [(fb, c) for fb in fam for c in fb.calls() if c.name == A + "crypto::hash::hash_all"]
         ok = len(ha) == 1
         if ok:
-            t = b.operand_term(ha[0].args[0])
+            fb, c = ha[0]
+            t = fb.operand_term(c.args[0])
             arrs = [x for x in mir.walk(t) if isinstance(x, tuple) and x and x[0] == "array" and len(x[1]) == 2]
-            ok = bool(arrs) and K.mentions_field(arrs[0][1][0], "state_hash", "BlockExec") and not K.mentions_field(arrs[0][1][0], "0", "Transaction") and \
-                K.mentions_field(arrs[0][1][1], "0", "Transaction") and not K.mentions_field(arrs[0][1][1], "state_hash", "BlockExec")
+            ok = bool(arrs) and is_state_hash(fb, arrs[0][1][0]) and not K.mentions_field(arrs[0][1][0], "0", "Transaction") and \
+                K.mentions_field(arrs[0][1][1], "0", "Transaction") and not is_state_hash(fb, arrs[0][1][1])
         o.check(bool(ok), "execute_transactions|fold", "state_hash = H(state_hash || tx) for each transaction (in that order)", b.span)
-        it = [c for c in b.calls() if c.name.endswith("into_iter") or c.name.endswith("::iter")]
-        rev = [c for c in b.calls() if c.name.rsplit("::", 1)[-1] in ("rev", "sort", "sort_by", "sort_unstable", "par_iter", "shuffle")]
+        it = [c for fb in fam for c in fb.calls() if c.name.endswith("into_iter") or c.name.endswith("::iter")]
+        rev = [c for fb in fam for c in fb.calls() if c.name.rsplit("::", 1)[-1] in ("rev", "sort", "sort_by", "sort_unstable", "par_iter", "shuffle")]
         o.check(bool(it) and not rev, "execute_transactions|in-order", "transactions are visited in sequence order", b.span)
-        w = K.writes_of_field(b, "BlockExec", "state_hash")
-        o.check(len(w) == 1, "execute_transactions|single-writer", "state_hash is updated only by that fold", b.span)
+        nw = len(K.writes_of_field(b, "BlockExec", "state_hash"))
+        for fb in fam:
+            if fb is b:
+                continue
+            for (_bb, _i, dst, _rv, _sp) in fb.assignments():
+                if dst["l"] == 1 and dst["p"]:
+                    for p_ in dst["p"][:3]:
+                        if p_[0] == "f" and K.mentions_field(caps.get(fb.defpath, {}).get(p_[1], ("none",)), "state_hash", "BlockExec"):
+                            nw += 1
+        o.check(nw == 1, "execute_transactions|single-writer", "state_hash is updated only by that fold", b.span, {"writes": nw})
     eb = [prog.bodies[d] for d in ops if d.endswith("::end_block")]
     for b in eb:
         fam = prog.family(b.defpath)
